@@ -453,7 +453,9 @@ func (s *Service) retrieve(
 	namespacedShares, err := s.shareGetter.GetNamespaceData(ctx, header, namespace)
 	if err != nil {
 		if errors.Is(err, shwap.ErrNotFound) {
-			err = ErrBlobNotFound
+			// keep the cause: the data of the block could not be retrieved, which is different from
+			// the namespace having no blobs in the block
+			err = fmt.Errorf("%w: %w", ErrBlobNotFound, err)
 		}
 		return nil, nil, err
 	}
@@ -569,7 +571,8 @@ func (s *Service) getBlobs(
 	sharesParser := &parser{verifyFn: verifyFn}
 
 	_, _, err = s.retrieve(ctx, header.Height(), namespace, sharesParser)
-	if err != nil && !errors.Is(err, ErrBlobNotFound) {
+	// the namespace having no blobs is not an error, the data not being retrievable is
+	if err != nil && (!errors.Is(err, ErrBlobNotFound) || errors.Is(err, shwap.ErrNotFound)) {
 		log.Errorf("retrieving blobs for the namespace (%s): %v", namespace.String(), err)
 		span.RecordError(err)
 		span.SetStatus(codes.Error, "retrieving blobs for the namespace")
